@@ -143,7 +143,7 @@ func (r *subRegistry) Repositories(ctx context.Context, startAfter string) ocire
 	p := r.prefix + "/"
 	return func(yield func(string, error) bool) {
 		// TODO(go1.23): for name, err := range r.r.Repositories(ctx)
-		r.r.Repositories(ctx, startAfter)(func(repo string, err error) bool {
+		r.r.Repositories(ctx, r.repo(startAfter))(func(repo string, err error) bool {
 			if err != nil {
 				yield("", err)
 				return false
